@@ -109,7 +109,11 @@ func genCase(t *rapid.T, path string, tamper bool) Case {
 		if c.Target == "conflict" && c.Via == "rings" {
 			c.Decision = rapid.SampledFrom([]string{"abort", "skip", "overwrite"}).Draw(t, "decision")
 		}
-		if c.Via == "backuper" {
+		if c.Via == "backuper" && !tamper && rapid.IntRange(0, 2).Draw(t, "cli.v2") == 0 {
+			// through the real acra-keys binary: export [--all] [--private_keys] [key ids], then import, as separate processes
+			c.Via = "acra-keys"
+		}
+		if c.Via == "backuper" || c.Via == "acra-keys" {
 			// as the CLI drives it: --all lists every ring (mode "all", or "private" when --private_keys is given
 			// as well); explicit ids come with public or private
 			if c.Bulk {
@@ -148,6 +152,14 @@ func genCase(t *rapid.T, path string, tamper bool) Case {
 			if !seen[s] {
 				seen[s] = true
 				c.Keys = append(c.Keys, s)
+			}
+		}
+	}
+	if c.Via == "acra-keys" && !c.Bulk && c.Mode == "public" {
+		// the command refuses to export symmetric keys by id without --private_keys
+		for _, k := range c.Keys {
+			if k.Kind == kshist.StorageSym || k.Kind == kshist.HMAC {
+				c.Mode = "private"
 			}
 		}
 	}
